@@ -162,10 +162,823 @@ def gen_tables_lean(tb):
         out.append("def %sLiteral : List Rat := [%s]" % (ln, ", ".join(_lr(x) for x in (t["literals"][0] if t["literals"] else []))))
         out.append("/-- documented table (docstring, columns: %s) -/" % " | ".join(t["doc_header"]))
         out.append("def %sDoc : List (List Rat) := [%s]" % (ln, ", ".join("[" + ", ".join(_lr(c) for c in r) + "]" for r in t["doc_rows"])))
+        # the table the DOCUMENTATION prescribes (oracle of the driver): documented sizes (inches -> m exactly) and documented values
+        if nm in ("tank_cost", "pump_cost"):
+            orc = [(r[0], r[1]) for r in t["doc_rows"]]
+        elif nm in ("pipe_cost", "prv_cost"):
+            orc = [(r[0] * F(254, 10000), r[2]) for r in t["doc_rows"]]
+        else:
+            lit = t["literals"][0] if t["literals"] else []
+            if len(lit) != len(t["doc_rows"]):
+                raise BrokenTie("pipe_ghg: %d sizes in the code, %d documented rows" % (len(lit), len(t["doc_rows"])))
+            orc = [(F(i) * F(254, 10000), r[1]) for i, r in zip(lit, t["doc_rows"])]
+        out.append("/-- the documented table as a lookup table in SI units (sizes in inches x 0.0254 exactly) -/")
+        out.append("def %sOracle : List (Rat × Rat) := [%s]" % (ln, ", ".join("(%s, %s)" % (_lr(k), _lr(v)) for k, v in orc)))
         out.append("")
     out.append("end Wntr.Metrics.Gen")
     return "\n".join(out) + "\n"
 
 
+
+# ----------------------------------------------------------------------------- generator
+
+STEPS = [600, 900, 1800, 3600, 7000, 7200, 10800]
+
+
+def gen_spec(rng, idx, small=False):
+    """a JSON-able description of a small network with demand categories, patterns whose lengths need not divide
+    24 h, a pattern start, several reservoirs / pumps / valves / tanks"""
+    step = rng.choice(STEPS)
+    nsteps_start = rng.choice([0, 0, 1, 2, 3, 5])
+    pstart = nsteps_start * step if rng.random() < 0.8 else rng.choice([0, 450, 1234])
+    interp = rng.random() < 0.15
+    npat = rng.randint(0, 4)
+    names = ["1", "PA", "PB", "PC", "PD"]
+    rng.shuffle(names)
+    pats = []
+    for k in range(npat):
+        r = rng.random()
+        n = 0 if r < 0.07 else 1 if r < 0.15 else rng.choice([2, 3, 4, 5, 6, 7, 9, 12, 24])
+        mults = [round(rng.uniform(0, 3), rng.choice([0, 1, 3])) for _ in range(n)]
+        wrap = not (rng.random() < 0.12)
+        pats.append({"name": names[k], "mults": mults, "wrap": wrap})
+    pnames = [p["name"] for p in pats]
+    cats = [None, None, "A", "B", "", "res"]
+    nj = rng.randint(1, 3) if small else rng.randint(2, 6)
+    juncs = []
+    for k in range(nj):
+        nd = rng.choice([0, 1, 1, 1, 2, 3])
+        dem = []
+        for _ in range(nd):
+            base = rng.choice([0.0, round(rng.uniform(0.0001, 0.02), 5), round(rng.uniform(0.0001, 0.02), 5), -0.001])
+            pat = rng.choice(pnames + [None]) if pnames else None
+            dem.append([base, pat, rng.choice(cats)])
+        juncs.append({"name": "J%d" % k, "elev": round(rng.uniform(0, 60), 2), "demands": dem})
+    nres = rng.choice([1, 1, 2, 3])
+    res = [{"name": "R%d" % k, "head": round(rng.uniform(80, 140), 2)} for k in range(nres)]
+    ntank = rng.choice([0, 1, 1, 2])
+    tanks = []
+    for k in range(ntank):
+        lo = rng.choice([0.0, round(rng.uniform(0, 2), 2)])
+        hi = lo + round(rng.uniform(2, 12), 2)
+        curve = None
+        if rng.random() < 0.4:
+            xs = sorted(set([0.0, lo, hi] + [round(rng.uniform(0, hi + 2), 2) for _ in range(rng.randint(0, 3))]))
+            v = 0.0
+            pts = []
+            for i, x in enumerate(xs):
+                if i:
+                    v += (x - xs[i - 1]) * rng.uniform(20, 900)
+                pts.append([x, round(v, 3)])
+            curve = pts
+        tanks.append({"name": "T%d" % k, "elev": round(rng.uniform(40, 90), 2), "min": lo, "max": hi,
+                      "init": round(rng.uniform(lo, hi), 2), "diam": round(rng.uniform(3, 40), 2), "curve": curve})
+    nodes = [j["name"] for j in juncs]
+    pipes = []
+    k = 0
+    # spanning tree over junctions, sources attached by pipes / pumps / valves
+    for i in range(1, nj):
+        a = nodes[rng.randrange(0, i)]
+        pipes.append({"name": "P%d" % k, "a": a, "b": nodes[i]})
+        k += 1
+    for _ in range(rng.choice([0, 0, 1, 2])):
+        if nj >= 2:
+            a, b = rng.sample(nodes, 2)
+            pipes.append({"name": "P%d" % k, "a": a, "b": b})
+            k += 1
+    pumps, valves = [], []
+    diam_choices = [0.05, 0.1016, 0.127, 0.1524, 0.18, 0.2032, 0.254, 0.28, 0.3048, 0.33, 0.3556, 0.4064, 0.43, 0.4572, 0.508, 0.56,
+                    0.6096, 0.66, 0.7112, 0.7366, 0.762, 0.9]
+    for r in res:
+        tgt = rng.choice(nodes)
+        c = rng.random()
+        if c < 0.45:
+            pipes.append({"name": "P%d" % k, "a": r["name"], "b": tgt})
+            k += 1
+        elif c < 0.85:
+            kind = rng.choice(["H1", "H2", "H3", "POWER"])
+            if kind == "H1":
+                par = [[round(rng.uniform(0.01, 0.2), 4), round(rng.uniform(10, 80), 2)]]
+            elif kind == "H2":
+                h0 = round(rng.uniform(30, 90), 2)
+                par = [[0.0, h0], [round(rng.uniform(0.05, 0.3), 4), round(h0 * rng.uniform(0.2, 0.7), 2)]]
+            elif kind == "H3":
+                h0 = round(rng.uniform(30, 90), 2)
+                q1 = round(rng.uniform(0.02, 0.1), 4)
+                par = [[0.0, h0], [q1, round(h0 * 0.8, 2)], [round(2 * q1, 4), round(h0 * 0.35, 2)]]
+            else:
+                par = round(rng.uniform(500, 90000), 1)
+            pumps.append({"name": "U%d" % len(pumps), "a": r["name"], "b": tgt, "kind": kind, "par": par})
+        else:
+            pipes.append({"name": "P%d" % k, "a": r["name"], "b": tgt})
+            k += 1
+            if nj >= 2:  # valves may not touch a reservoir/tank: put one between two junctions
+                a, b = rng.sample(nodes, 2)
+                valves.append({"name": "V%d" % len(valves), "a": a, "b": b, "type": rng.choice(["PRV", "PRV", "PSV", "TCV", "FCV"]),
+                               "diam": rng.choice(diam_choices), "setting": round(rng.uniform(5, 40), 1)})
+    for t in tanks:
+        pipes.append({"name": "P%d" % k, "a": t["name"], "b": rng.choice(nodes)})
+        k += 1
+    for p in pipes:
+        p["length"] = round(rng.uniform(10, 1500), 1)
+        p["diam"] = rng.choice(diam_choices)
+        p["rough"] = rng.choice([80, 100, 120, 140])
+    hstep = step if step != 7000 else 3500
+    eff = rng.choice([75, 75.0, 60, 82.5, 100, None]) if (pumps) else rng.choice([75, None])
+    spec = {
+        "id": idx,
+        "time": {"pattern_timestep": step, "pattern_start": pstart, "interp": interp, "hydraulic_timestep": hstep,
+                 "report_timestep": hstep, "duration": hstep * rng.choice([0, 3, 5, 8])},
+        "dm": rng.choice([1.0, 1.0, 0.5, 1.3, 2.0]),
+        "default_pattern": rng.choice(["keep", "keep", None] + pnames),
+        "patterns": pats, "junctions": juncs, "reservoirs": res, "tanks": tanks, "pipes": pipes, "pumps": pumps, "valves": valves,
+        "energy": {"eff": eff, "price": rng.choice([0, 3.61e-8, 1e-7]), "pump_price": rng.choice([None, None, 5e-8])},
+    }
+    return spec
+
+
+def build(spec):
+    wntr = vlib.import_wntr()
+    from wntr.network.elements import Pattern
+
+    wn = wntr.network.WaterNetworkModel()
+    t = spec["time"]
+    wn.options.time.pattern_timestep = t["pattern_timestep"]
+    wn.options.time.pattern_start = t["pattern_start"]
+    wn.options.time.pattern_interpolation = t["interp"]
+    wn.options.time.hydraulic_timestep = t["hydraulic_timestep"]
+    wn.options.time.report_timestep = t["report_timestep"]
+    wn.options.time.duration = t["duration"]
+    wn.options.hydraulic.demand_multiplier = spec["dm"]
+    if spec["default_pattern"] != "keep":
+        wn.options.hydraulic.pattern = spec["default_pattern"]
+    for p in spec["patterns"]:
+        if p["wrap"]:
+            wn.add_pattern(p["name"], list(p["mults"]))
+        else:
+            wn.add_pattern(p["name"], Pattern(p["name"], multipliers=list(p["mults"]), time_options=wn.options.time, wrap=False))
+    for j in spec["junctions"]:
+        d = j["demands"]
+        if d:
+            wn.add_junction(j["name"], base_demand=d[0][0], demand_pattern=d[0][1], elevation=j["elev"], demand_category=d[0][2])
+        else:
+            wn.add_junction(j["name"], elevation=j["elev"])
+            wn.get_node(j["name"]).demand_timeseries_list.clear()
+        for (b, pn, c) in d[1:]:
+            wn.get_node(j["name"]).add_demand(b, pn, c)
+    for r in spec["reservoirs"]:
+        wn.add_reservoir(r["name"], base_head=r["head"])
+    for tk in spec["tanks"]:
+        cname = None
+        if tk["curve"]:
+            cname = "VC_" + tk["name"]
+            wn.add_curve(cname, "VOLUME", [tuple(x) for x in tk["curve"]])
+        wn.add_tank(tk["name"], elevation=tk["elev"], init_level=tk["init"], min_level=tk["min"], max_level=tk["max"],
+                    diameter=tk["diam"], vol_curve=cname)
+    for p in spec["pipes"]:
+        wn.add_pipe(p["name"], p["a"], p["b"], length=p["length"], diameter=p["diam"], roughness=p["rough"])
+    for u in spec["pumps"]:
+        if u["kind"] == "POWER":
+            wn.add_pump(u["name"], u["a"], u["b"], "POWER", u["par"])
+        else:
+            cn = "HC_" + u["name"]
+            wn.add_curve(cn, "HEAD", [tuple(x) for x in u["par"]])
+            wn.add_pump(u["name"], u["a"], u["b"], "HEAD", cn)
+        if spec["energy"].get("pump_price") is not None and u["name"].endswith("0"):
+            wn.get_link(u["name"]).energy_price = spec["energy"]["pump_price"]
+    for v in spec["valves"]:
+        wn.add_valve(v["name"], v["a"], v["b"], diameter=v["diam"], valve_type=v["type"], initial_setting=v["setting"])
+    wn.options.energy.global_efficiency = spec["energy"]["eff"]
+    wn.options.energy.global_price = spec["energy"]["price"]
+    return wn
+
+
+# ----------------------------------------------------------------------------- driver requests
+
+def fs(x):
+    return vlib.frac_str(x)
+
+
+def cat_tok(c):
+    return "-" if c is None else ("@e" if c == "" else c)
+
+
+def ts_tokens(spec):
+    """per junction: the `ts ; ts` section of a driver line, resolving pattern names the way the docs describe:
+    no pattern -> the default pattern (options.hydraulic.pattern, '1' unless changed) if it exists, else constant"""
+    pats = {p["name"]: p for p in spec["patterns"]}
+    dflt = "1" if spec["default_pattern"] == "keep" else spec["default_pattern"]
+    out = {}
+    for j in spec["junctions"]:
+        toks = []
+        for (b, pn, c) in j["demands"]:
+            name = pn if pn is not None else dflt
+            p = pats.get(name) if name is not None else None
+            pt = "-" if p is None else "%d:%s" % (1 if p["wrap"] else 0, ",".join(fs(m) for m in p["mults"]))
+            toks.append("%s %s %s" % (fs(b), cat_tok(c), pt))
+        out[j["name"]] = " ; ".join(toks)
+    return out
+
+
+def parse_rat(s):
+    if s == "nan":
+        return None
+    a, b = s.split("/")
+    return F(int(a), int(b))
+
+
+def close(impl, model, rel=1e-9, scale=0.0):
+    """impl: float from pandas; model: Fraction or None (division by zero)"""
+    if model is None:
+        return not math.isfinite(impl)
+    if not math.isfinite(impl):
+        return False
+    m = float(model)
+    return abs(impl - m) <= rel * max(abs(m), abs(impl), scale) + 1e-300
+
+
+class Reqs:
+    def __init__(self):
+        self.lines = []
+        self.cbs = []
+
+    def add(self, line, cb):
+        self.lines.append(line)
+        self.cbs.append(cb)
+
+    def run(self):
+        if not self.lines:
+            return
+        out = vlib.lean_run("Drivers/MetricsDriver.lean", "\n".join(self.lines) + "\n")
+        if len(out) != len(self.lines):
+            raise vlib.Infra("MetricsDriver returned %d lines for %d requests" % (len(out), len(self.lines)))
+        for l, o, cb in zip(self.lines, out, self.cbs):
+            if o == "bad-op":
+                raise vlib.Infra("MetricsDriver rejected the request: " + l[:300])
+            cb(o)
+
+
+CATS_TRY = [None, "A", "B", "", "res", "zzz"]
+
+
+class C20(Check):
+    pid = "C20"
+    level = "proof"
+    prop_modules = ["WntrModel.Props.C20"]
+    manifest = dict(
+        category="proof",
+        text="Lean theorems over transliterations of Pattern.at / TimeSeries.at / Demands.at, expected_demand, average_expected_demand "
+        "(with _gcd/_lcm/_lcml) and the documented metric formulas in exact rationals: patterns are periodic; the averaging period is a positive common "
+        "multiple of 24 h and every pattern length; the mean over that window does not depend on its start and equals sum(base x mean multiplier x "
+        "demand multiplier); expected_demand is the sum of base x pattern x multiplier and is the expression WNTRSimulator uses; the lookup index minimises "
+        "|key - x| (first on ties); the default cost/GHG tables re-read from economic.py equal the documented tables; the documented maximum pump power is "
+        "the true maximum for a linear curve. Every metric function is run against the Lean driver on random networks and random results tables, and "
+        "expected_demand against a real demand-driven WNTRSimulator run.",
+        design_ref="DESIGN.md §5 C20",
+        note="the formulas of todini/MRI/tank capacity/WSA/population/pump power-energy-cost/annual cost are DEFINITIONS in the model (the oracle), "
+        "tied to the pandas code by the differential run only; float rounding, pandas alignment and scipy curve_fit are exercised, not modelled; "
+        "the general-exponent maximum-pump-power formula is evaluated in Lean Float; interpolated patterns are covered by periodicity only",
+        technique="Lean 4 proof over hand model + translator-regenerated tables, differential run against the Lean driver, simulator cross-check",
+    )
+    rule = (
+        "obligations: theorems of Props/C20.lean. correspondence cases: one per (network, metric call, argument variant) and per "
+        "(pattern, time) probe; non-trivial = the call involves a pattern of length >= 2, a non-zero pattern start, a category filter, a pump/tank/valve, "
+        "or a custom table"
+    )
+    trusted_base = [
+        "translator harness/props/c20.py (partial evaluation of the `if <table> is None` blocks and RST table parsing of economic.py)",
+        "hand transliteration Model/Pattern.lean, Model/Metrics.lean, tied to the code by the differential run on every check",
+        "IEEE-754 rounding / pandas alignment are not modelled: implementation values are compared to exact rationals at 1e-9 relative",
+    ]
+    assumptions = [
+        "pattern_timestep is an integer >= 1 (enforced by TimeOptions.__setattr__); times and pattern starts are integer seconds",
+        "Lean Float exp/log/pow and numpy agree to 1e-9 relative (general-exponent maximum pump power only)",
+    ]
+
+    def translate(self, ctx):
+        tb = read_tables()
+        self.tables = tb
+        ctx.cov["table_rows"] = {k: len(v["keys"]) for k, v in tb.items()}
+        vlib.write_if_changed(os.path.join(vlib.GEN, "Tables.lean"), gen_tables_lean(tb))
+
+    # ------------------------------------------------------------------ one network
+    def run_spec(self, ctx, spec, reqs, fails, with_sim=True, label=""):
+        import numpy as np
+        import pandas as pd
+
+        wntr = vlib.import_wntr()
+        rng = ctx.rng if not label else __import__("random").Random(1)
+        wn = build(spec)
+        t = spec["time"]
+        step, pstart, interp, dm = t["pattern_timestep"], t["pattern_start"], t["interp"], spec["dm"]
+        toks = ts_tokens(spec)
+        lens = ",".join(str(len(p["mults"])) for p in spec["patterns"]) or "-"
+        haslong = any(len(p["mults"]) >= 2 for p in spec["patterns"])
+        nontriv = haslong or pstart != 0
+        sid = spec.get("id", label)
+        # junctions using a non-wrapping pattern of length >= 2: such a pattern has no period, the average is not judged
+        pats = {p["name"]: p for p in spec["patterns"]}
+        dflt = "1" if spec["default_pattern"] == "keep" else spec["default_pattern"]
+        nowrap = set()
+        # magnitude of the terms of a junction's demand (rounding of the interpolation / the sums is relative to it)
+        jscale = {}
+        for j in spec["junctions"]:
+            tot = 0.0
+            for (b, pn_, c) in j["demands"]:
+                p = pats.get(pn_ if pn_ is not None else dflt)
+                mx = max([1.0] + [abs(m) for m in (p["mults"] if p else [])])
+                tot += abs(b) * mx * abs(dm) * (50.0 if interp else 1.0)
+            jscale[j["name"]] = tot
+        for j in spec["junctions"]:
+            for (b, pn_, c) in j["demands"]:
+                p = pats.get(pn_ if pn_ is not None else dflt)
+                if p is not None and not p["wrap"] and len(p["mults"]) >= 2:
+                    nowrap.add(j["name"])
+
+        def fail(key, what, extra):
+            r = {"spec": spec}
+            r.update(extra)
+            fails.append(Failure(key, what, r))
+
+        # ---- expected_demand: default arguments and an explicit window, a few categories
+        variants = [(None, None, None, None)]
+        variants.append((rng.choice([0, step, 2 * step + 7]), None, rng.choice([step, 2 * step, 777]), rng.choice(CATS_TRY)))
+        for (st, en, tsx, cat) in variants:
+            try:
+                kw = {}
+                if st is not None:
+                    kw = dict(start_time=st, end_time=st + 6 * tsx, timestep=tsx, category=cat)
+                ed = wntr.metrics.expected_demand(wn, **kw)
+            except Exception as e:
+                fail("expected_demand-exception", "expected_demand raised %s: %s" % (type(e).__name__, e), {"call": "expected_demand", "kw": str(kw)})
+                continue
+            times = list(ed.index)
+            for j in spec["junctions"]:
+                col = ed[j["name"]]
+                for tt in (times if len(times) <= 6 else rng.sample(times, 6)):
+                    ti = int(tt)
+                    impl = float(col.loc[tt])
+                    line = "exp %d %d %d %s %s %d | %s" % (step, interp, pstart, fs(dm), cat_tok(cat), ti, toks[j["name"]])
+
+                    def cb(o, impl=impl, j=j, ti=ti, cat=cat, kw=kw):
+                        m = parse_rat(o.split()[0])
+                        ctx.case(("exp", sid, j["name"], ti, cat_tok(cat)), nontriv)
+                        ctx.count("expected_demand")
+                        if not close(impl, m, scale=jscale[j["name"]]):
+                            key = "expected_demand-pattern-start" if pstart != 0 else "expected_demand-value"
+                            fail(key, "expected_demand(%s)[%s][t=%d] = %r, base x pattern(t + pattern_start) x multiplier = %r (pattern_start=%s)"
+                                 % (kw or "", j["name"], ti, impl, float(m), pstart),
+                                 {"call": "expected_demand", "kw": str(kw), "junction": j["name"], "t": ti, "observed": impl, "expected": float(m)})
+
+                    reqs.add(line, cb)
+        # ---- average_expected_demand and population
+        for cat in [None, rng.choice(CATS_TRY[1:])]:
+            try:
+                av = wntr.metrics.average_expected_demand(wn, category=cat)
+            except Exception as e:
+                key = "average_expected_demand-empty-pattern" if any(len(p["mults"]) == 0 for p in spec["patterns"]) else "average_expected_demand-exception"
+                fail(key, "average_expected_demand raised %s: %s" % (type(e).__name__, e), {"call": "average_expected_demand", "category": cat})
+                continue
+            for j in spec["junctions"]:
+                if j["name"] in nowrap:
+                    ctx.count("avg_skipped_nonwrapping_pattern")
+                    continue
+                impl = float(av[j["name"]])
+                line = "avg %d %d %d %s %s %s | %s" % (step, interp, pstart, fs(dm), cat_tok(cat), lens, toks[j["name"]])
+
+                def cb(o, impl=impl, j=j, cat=cat):
+                    per, ns, v = o.split()
+                    m = parse_rat(v)
+                    ctx.case(("avg", sid, j["name"], cat_tok(cat)), nontriv)
+                    ctx.count("average_expected_demand")
+                    ctx.count("period_%s_24h" % ("eq" if per == "86400" else "gt"))
+                    if not close(impl, m, scale=jscale[j["name"]]):
+                        key = "average_expected_demand-period-not-common" if per != "86400" else "average_expected_demand-value"
+                        fail(key, "average_expected_demand(category=%r)[%s] = %r, mean over a whole common period (%s s, %s samples) = %r"
+                             % (cat, j["name"], impl, per, ns, float(m) if m is not None else None),
+                             {"call": "average_expected_demand", "category": cat, "junction": j["name"], "observed": impl,
+                              "expected": float(m) if m is not None else None, "period": per})
+
+                reqs.add(line, cb)
+        try:
+            R = rng.choice([0.00000876157, 1e-5, 3.3e-6])
+            pop = wntr.metrics.population(wn, R)
+            av = wntr.metrics.average_expected_demand(wn)
+            for j in spec["junctions"]:
+                a = float(av[j["name"]])
+                impl = float(pop[j["name"]])
+                if not math.isfinite(a):
+                    continue
+
+                def cb(o, impl=impl, a=a, R=R, j=j):
+                    ctx.case(("pop", sid, j["name"]), a != 0)
+                    ctx.count("population")
+                    x = F(a) / F(R)
+                    if abs((x - math.floor(x)) - F(1, 2)) < F(1, 10**6):
+                        return
+                    if o == "nan" or impl != float(int(o)):
+                        fail("population-value", "population[%s] = %r, round(average/R) = %s" % (j["name"], impl, o),
+                             {"call": "population", "R": R, "avg": a, "observed": impl, "expected": o})
+
+                reqs.add("pop %s %s" % (fs(a), fs(R)), cb)
+        except Exception as e:
+            if not any(f.key.startswith("average_expected_demand") for f in fails):
+                fail("population-exception", "population raised %s: %s" % (type(e).__name__, e), {"call": "population"})
+        # ---- results-table metrics on random tables
+        self.table_metrics(ctx, spec, wn, reqs, fail, rng, sid)
+        self.cost_metrics(ctx, spec, wn, reqs, fail, rng, sid)
+        if with_sim:
+            self.sim_check(ctx, spec, wn, fail, sid)
+
+    def table_metrics(self, ctx, spec, wn, reqs, fail, rng, sid):
+        import numpy as np
+        import pandas as pd
+
+        wntr = vlib.import_wntr()
+        times = [0, 3600, 7200][: rng.randint(1, 3)]
+        jn, rn, tn, pn = wn.junction_name_list, wn.reservoir_name_list, wn.tank_name_list, wn.pump_name_list
+        nodes = wn.node_name_list
+        links = wn.link_name_list
+        cols = list(nodes)
+        rng.shuffle(cols)
+
+        def rnd(lo, hi):
+            return round(rng.uniform(lo, hi), rng.choice([1, 3, 6]))
+
+        head = pd.DataFrame({n: [rnd(20, 150) for _ in times] for n in cols}, index=times)
+        pressure = pd.DataFrame({n: [rnd(-5, 80) for _ in times] for n in cols}, index=times)
+        demand = pd.DataFrame({n: [(rnd(-0.05, 0) if n in rn else rnd(0, 0.03) if rng.random() < 0.85 else 0.0) for _ in times] for n in cols}, index=times)
+        lcols = list(links)
+        rng.shuffle(lcols)
+        flow = pd.DataFrame({l: [rnd(-0.02, 0.2) for _ in times] for l in lcols}, index=times)
+        pstar = rng.choice([20, 21.09, 0, 35.5, 10])
+        has = bool(pn) or bool(tn)
+        # Todini
+        try:
+            td = wntr.metrics.todini_index(head, pressure, demand, flow.loc[:, pn] if rng.random() < 0.5 else flow, wn, pstar)
+            for tt in times:
+                js = " ; ".join("%s %s %s" % (fs(demand.loc[tt, n]), fs(head.loc[tt, n]), fs(pressure.loc[tt, n])) for n in jn)
+                rs = " ; ".join("%s %s" % (fs(demand.loc[tt, n]), fs(head.loc[tt, n])) for n in rn)
+                ps = " ; ".join("%s %s %s" % (fs(flow.loc[tt, l]), fs(head.loc[tt, wn.get_link(l).start_node_name]), fs(head.loc[tt, wn.get_link(l).end_node_name])) for l in pn)
+                impl = float(td.loc[tt])
+
+                def cb(o, impl=impl, tt=tt):
+                    ctx.case(("todini", sid, tt), True)
+                    ctx.count("todini_index")
+                    ctx.count("todini_pumps_%d" % min(len(pn), 2))
+                    if not close(impl, parse_rat(o), rel=1e-7):
+                        fail("todini_index-value", "todini_index at t=%d = %r, documented formula = %s" % (tt, impl, o),
+                             {"call": "todini_index", "t": tt, "observed": impl, "expected": o, "tables": {"head": head.to_dict(), "pressure": pressure.to_dict(), "demand": demand.to_dict(), "flow": flow.to_dict()}, "Pstar": pstar})
+
+                reqs.add("todini %s | %s | %s | %s" % (fs(pstar), js, rs, ps), cb)
+        except Exception as e:
+            fail("todini_index-exception" + ("" if pn else "-no-pumps"), "todini_index raised %s: %s" % (type(e).__name__, e), {"call": "todini_index"})
+        # MRI
+        try:
+            elev = pd.Series({n: wn.get_node(n).elevation for n in jn})
+            if rng.random() < 0.2 and len(jn):
+                pstar_m = -float(elev.iloc[0])  # Pstar + elevation = 0 at one junction
+            else:
+                pstar_m = float(pstar)
+            pj = pressure.loc[:, jn]
+            m1 = wntr.metrics.modified_resilience_index(pj, elev, pstar_m, per_junction=True)
+            dj = demand.loc[:, list(reversed(jn))]
+            m2 = wntr.metrics.modified_resilience_index(pj, elev, pstar_m, demand=dj, per_junction=False)
+            for tt in times:
+                for n in jn:
+                    impl = float(m1.loc[tt, n])
+
+                    def cb(o, impl=impl, tt=tt, n=n):
+                        ctx.case(("mrij", sid, tt, n), True)
+                        ctx.count("mri_per_junction")
+                        if not close(impl, parse_rat(o), rel=1e-7):
+                            fail("modified_resilience_index-junction", "MRI[%s][t=%d] = %r, documented = %s" % (n, tt, impl, o),
+                                 {"call": "modified_resilience_index", "junction": n, "observed": impl, "expected": o, "Pstar": pstar_m})
+
+                    reqs.add("mrij %s %s %s" % (fs(pstar_m), fs(pj.loc[tt, n]), fs(elev[n])), cb)
+                rows = " ; ".join("%s %s %s" % (fs(demand.loc[tt, n]), fs(pj.loc[tt, n]), fs(elev[n])) for n in jn)
+                impl = float(m2.loc[tt])
+                pexp_terms = [abs(demand.loc[tt, n] * (pstar_m + elev[n])) for n in jn]
+                illc = abs(sum(demand.loc[tt, n] * (pstar_m + elev[n]) for n in jn)) < 1e-6 * max(sum(pexp_terms), 1e-300)
+
+                def cb(o, impl=impl, tt=tt, illc=illc):
+                    ctx.case(("mris", sid, tt), True)
+                    ctx.count("mri_system")
+                    if illc and o != "nan":
+                        ctx.count("skipped_ill_conditioned")
+                        return
+                    if not close(impl, parse_rat(o), rel=1e-7):
+                        fail("modified_resilience_index-system", "system MRI[t=%d] = %r, documented = %s" % (tt, impl, o),
+                             {"call": "modified_resilience_index", "observed": impl, "expected": o, "Pstar": pstar_m})
+
+                reqs.add("mris %s | %s" % (fs(pstar_m), rows), cb)
+        except Exception as e:
+            fail("modified_resilience_index-exception", "modified_resilience_index raised %s: %s" % (type(e).__name__, e), {"call": "modified_resilience_index"})
+        # tank capacity
+        if tn:
+            try:
+                tcols = list(tn)
+                rng.shuffle(tcols)
+                lv = pd.DataFrame({n: [rnd(0, 14) for _ in times] for n in tcols}, index=times)
+                tc = wntr.metrics.tank_capacity(lv, wn)
+                for tk in spec["tanks"]:
+                    for tt in times:
+                        impl = float(tc.loc[tt, tk["name"]])
+                        if tk["curve"]:
+                            line = "tankcap curve %s %s %s" % (fs(tk["max"]), fs(lv.loc[tt, tk["name"]]), ",".join("%s:%s" % (fs(x), fs(y)) for x, y in tk["curve"]))
+                        else:
+                            line = "tankcap cyl %s %s %s" % (fs(tk["diam"]), fs(tk["max"]), fs(lv.loc[tt, tk["name"]]))
+
+                        def cb(o, impl=impl, tk=tk, tt=tt):
+                            ctx.case(("tankcap", sid, tk["name"], tt), True)
+                            ctx.count("tank_capacity_%s" % ("curve" if tk["curve"] else "cyl"))
+                            if not close(impl, parse_rat(o)):
+                                fail("tank_capacity-value", "tank_capacity[%s][t=%d] = %r, volume(level)/volume(max_level) = %s" % (tk["name"], tt, impl, o),
+                                     {"call": "tank_capacity", "tank": tk, "level": float(lv.loc[tt, tk["name"]]), "observed": impl, "expected": o})
+
+                        reqs.add(line, cb)
+            except Exception as e:
+                fail("tank_capacity-exception", "tank_capacity raised %s: %s" % (type(e).__name__, e), {"call": "tank_capacity"})
+        # water service availability
+        try:
+            exp = pd.DataFrame({n: [rnd(0, 0.03) if rng.random() < 0.8 else 0.0 for _ in times] for n in jn}, index=times)
+            act = demand.loc[:, jn]
+            w = wntr.metrics.water_service_availability(exp, act)
+            ws = wntr.metrics.water_service_availability(exp.sum(axis=0), act.sum(axis=0))
+            for n in jn:
+                for tt in times:
+                    impl = float(w.loc[tt, n])
+
+                    def cb(o, impl=impl, n=n, tt=tt):
+                        ctx.case(("wsa", sid, n, tt), True)
+                        ctx.count("wsa")
+                        if not close(impl, parse_rat(o)):
+                            fail("water_service_availability-value", "WSA[%s][t=%d] = %r, demand/expected = %s" % (n, tt, impl, o),
+                                 {"call": "water_service_availability", "observed": impl, "expected": o})
+
+                    reqs.add("wsa %s %s" % (fs(act.loc[tt, n]), fs(exp.loc[tt, n])), cb)
+                impl = float(ws[n])
+                reqs.add("wsa %s %s" % (fs(float(act[n].sum())), fs(float(exp[n].sum()))),
+                         lambda o, impl=impl, n=n: (ctx.case(("wsa-sum", sid, n), True), None if close(impl, parse_rat(o)) else fail(
+                             "water_service_availability-value", "WSA(sum)[%s] = %r, documented = %s" % (n, impl, o), {"call": "wsa-series"})))
+        except Exception as e:
+            fail("water_service_availability-exception", "water_service_availability raised %s: %s" % (type(e).__name__, e), {"call": "wsa"})
+        # pump power / energy / cost
+        if pn and spec["energy"]["eff"] is not None:
+            try:
+                fl = flow.loc[:, pn]
+                pw = wntr.metrics.pump_power(fl, head, wn)
+                en = wntr.metrics.pump_energy(fl, head, wn)
+                co = wntr.metrics.pump_cost(en, wn)
+                for l in pn:
+                    lk = wn.get_link(l)
+                    price = lk.energy_price if lk.energy_price is not None else wn.options.energy.global_price
+                    for tt in times:
+                        impl = (float(pw.loc[tt, l]), float(en.loc[tt, l]), float(co.loc[tt, l]))
+                        line = "pump %s %s %s %s %s %s" % (fs(fl.loc[tt, l]), fs(head.loc[tt, lk.start_node_name]), fs(head.loc[tt, lk.end_node_name]),
+                                                           fs(spec["energy"]["eff"]), fs(wn.options.time.report_timestep), fs(price))
+
+                        def cb(o, impl=impl, l=l, tt=tt):
+                            ctx.case(("pump", sid, l, tt), True)
+                            ctx.count("pump_power_energy_cost")
+                            ms = [parse_rat(x) for x in o.split()]
+                            for nm, a, m in zip(("pump_power", "pump_energy", "pump_cost"), impl, ms):
+                                if not close(a, m):
+                                    fail(nm + "-value", "%s[%s][t=%d] = %r, documented = %r" % (nm, l, tt, a, float(m) if m is not None else None),
+                                         {"call": nm, "pump": l, "observed": a, "expected": float(m) if m is not None else None})
+
+                        reqs.add(line, cb)
+            except Exception as e:
+                fail("pump_power-exception", "pump power/energy/cost raised %s: %s" % (type(e).__name__, e), {"call": "pump_power"})
+
+    def cost_metrics(self, ctx, spec, wn, reqs, fail, rng, sid):
+        import numpy as np
+        import pandas as pd
+
+        wntr = vlib.import_wntr()
+        eff = spec["energy"]["eff"]
+        has_pump = bool(spec["pumps"])
+        custom = rng.random() < 0.4
+        kw = {}
+        tabs = "default"
+        if custom:
+            def mk(lo, hi, n, vlo, vhi):
+                ks = sorted(set(round(rng.uniform(lo, hi), 4) for _ in range(n)))
+                if rng.random() < 0.3:
+                    rng.shuffle(ks)
+                return pd.Series([round(rng.uniform(vlo, vhi), 2) for _ in ks], ks)
+
+            kw = dict(tank_cost=mk(100, 20000, rng.randint(1, 5), 1e3, 2e5), pipe_cost=mk(0.05, 0.9, rng.randint(1, 6), 5, 50),
+                      prv_cost=mk(0.05, 0.9, rng.randint(1, 4), 100, 7000), pump_cost=mk(500, 120000, rng.randint(1, 5), 1e3, 6e3))
+            enc = lambda s: ",".join("%s:%s" % (fs(float(k)), fs(float(v))) for k, v in zip(s.index, s.values))
+            tabs = "T=%s;P=%s;V=%s;U=%s" % (enc(kw["tank_cost"]), enc(kw["pipe_cost"]), enc(kw["prv_cost"]), enc(kw["pump_cost"]))
+        items_doc, items_asis = [], []
+        for tk in spec["tanks"]:
+            if tk["curve"]:
+                it = "tank curve %s %s %s" % (fs(tk["min"]), fs(tk["max"]), ",".join("%s:%s" % (fs(x), fs(y)) for x, y in tk["curve"]))
+            else:
+                it = "tank cyl %s %s %s" % (fs(tk["diam"]), fs(tk["min"]), fs(tk["max"]))
+            items_doc.append(it)
+            items_asis.append(it)
+        for p in spec["pipes"]:
+            items_doc.append("pipe %s %s" % (fs(p["diam"]), fs(p["length"])))
+            items_asis.append(items_doc[-1])
+        fit_ok = True
+        for u in spec["pumps"]:
+            effd = F(75, 100) if eff is None else F(eff) / 100  # documented: a fraction, 0.75 by default
+            effa = None if eff is None else F(eff)  # the code divides by the stored percentage
+            if u["kind"] == "POWER":
+                items_doc.append("ppump %s %s" % (fs(u["par"]), fs(effd)))
+                items_asis.append("ppump %s %s" % (fs(u["par"]), fs(effa if effa is not None else 1)))
+            else:
+                try:
+                    A, B, C = wn.get_link(u["name"]).get_head_curve_coefficients()
+                except Exception:
+                    fit_ok = False
+                    break
+                items_doc.append("hpump %s %s %s %s" % (fs(A), fs(B), fs(C), fs(effd)))
+                items_asis.append("hpump %s %s %s %s" % (fs(A), fs(B), fs(C), fs(effa if effa is not None else 1)))
+        for v in spec["valves"]:
+            if v["type"] == "PRV":
+                items_doc.append("prv %s" % fs(v["diam"]))
+                items_asis.append(items_doc[-1])
+        if fit_ok:
+            try:
+                cimpl = float(wntr.metrics.annual_network_cost(wn, **kw))
+                err = None
+            except Exception as e:
+                cimpl, err = None, "%s: %s" % (type(e).__name__, e)
+            res = {}
+
+            def fin():
+                if "doc" not in res or "asis" not in res:
+                    return
+                ctx.case(("netcost", sid, custom), True)
+                ctx.count("annual_network_cost_%s" % ("custom" if custom else "default"))
+                md, ma = res["doc"], res["asis"]
+                if err is not None:
+                    key = "annual_network_cost-pump-efficiency" if (has_pump and eff is None) else "annual_network_cost-exception"
+                    fail(key, "annual_network_cost raised %s; documented total (eff = 0.75 default) = %r" % (err, float(md)),
+                         {"call": "annual_network_cost", "observed": err, "expected": float(md), "tables": tabs})
+                elif not close(cimpl, md):
+                    key = "annual_network_cost-pump-efficiency" if (has_pump and close(cimpl, ma)) else "annual_network_cost-value"
+                    fail(key, "annual_network_cost = %r, documented formula (max pump power with eff = global efficiency as a fraction) = %r; "
+                         "dividing by the stored percentage instead gives %r" % (cimpl, float(md), float(ma)),
+                         {"call": "annual_network_cost", "observed": cimpl, "expected": float(md), "with_percent": float(ma), "tables": tabs})
+
+            reqs.add("netcost %s | %s" % (tabs, " ; ".join(items_doc)), lambda o: (res.__setitem__("doc", parse_rat(o)), fin()))
+            reqs.add("netcost %s | %s" % (tabs, " ; ".join(items_asis)), lambda o: (res.__setitem__("asis", parse_rat(o)), fin()))
+        # GHG
+        try:
+            gkw = {}
+            gt = "default"
+            if custom:
+                ks = sorted(set(round(rng.uniform(0.05, 0.9), 4) for _ in range(rng.randint(1, 6))))
+                ser = pd.Series([round(rng.uniform(5, 80), 2) for _ in ks], ks)
+                gkw = dict(pipe_ghg=ser)
+                gt = ",".join("%s:%s" % (fs(float(k)), fs(float(v))) for k, v in zip(ser.index, ser.values))
+            impl = float(wntr.metrics.annual_ghg_emissions(wn, **gkw))
+            line = "ghg %s | %s" % (gt, " ; ".join("%s %s" % (fs(p["diam"]), fs(p["length"])) for p in spec["pipes"]))
+
+            def cb(o, impl=impl):
+                ctx.case(("ghg", sid, custom), True)
+                ctx.count("annual_ghg_emissions")
+                if not close(impl, parse_rat(o)):
+                    fail("annual_ghg_emissions-value", "annual_ghg_emissions = %r, documented = %s" % (impl, o),
+                         {"call": "annual_ghg_emissions", "observed": impl, "expected": o})
+
+            reqs.add(line, cb)
+        except Exception as e:
+            fail("annual_ghg_emissions-exception", "annual_ghg_emissions raised %s: %s" % (type(e).__name__, e), {"call": "annual_ghg_emissions"})
+
+    def sim_check(self, ctx, spec, wn, fail, sid):
+        """expected_demand(wn) against the demand a real demand-driven WNTRSimulator run delivers"""
+        wntr = vlib.import_wntr()
+        if spec["time"]["duration"] == 0 or spec["pumps"] or spec["valves"]:
+            return
+        try:
+            wn2 = build(spec)
+            wn2.options.hydraulic.demand_model = "DD"
+            res = wntr.sim.WNTRSimulator(wn2).run_sim()
+        except Exception as e:
+            ctx.count("sim_failed")
+            return
+        if res.error_code is not None and res.error_code != 0:
+            ctx.count("sim_failed")
+            return
+        dem = res.node["demand"]
+        ed = wntr.metrics.expected_demand(build(spec))
+        ctx.count("sim_runs")
+        pstart = spec["time"]["pattern_start"]
+        for tt in dem.index:
+            if tt not in ed.index:
+                continue
+            for j in spec["junctions"]:
+                a, b = float(dem.loc[tt, j["name"]]), float(ed.loc[tt, j["name"]])
+                ctx.case(("sim", sid, j["name"], int(tt)), True)
+                ctx.count("sim_vs_expected_demand")
+                if abs(a - b) > 1e-9 * max(abs(a), abs(b)) + 1e-12:
+                    key = "expected_demand-pattern-start" if pstart != 0 else "expected_demand-vs-simulator"
+                    fail(key, "WNTRSimulator (DD) delivers %r at %s, t=%d but expected_demand says %r (pattern_start=%s)" % (a, j["name"], int(tt), b, pstart),
+                         {"call": "WNTRSimulator vs expected_demand", "junction": j["name"], "t": int(tt), "simulated": a, "metric": b})
+                    return
+
+    # ------------------------------------------------------------------ pattern probes
+    def pattern_probes(self, ctx, reqs, fails):
+        wntr = vlib.import_wntr()
+        from wntr.network.elements import Pattern
+        from wntr.network.options import TimeOptions
+
+        rng = ctx.rng
+        n = 150 if ctx.quick else 1500
+        for _ in range(n):
+            ln = rng.choice([0, 1, 2, 2, 3, 4, 5, 7, 24])
+            mults = [round(rng.uniform(-1, 3), rng.choice([0, 2, 5])) for _ in range(ln)]
+            step = rng.choice(STEPS + [1, 7])
+            wrap = rng.random() < 0.7
+            interp = rng.random() < 0.35
+            to = TimeOptions()
+            to.pattern_timestep = step
+            to.pattern_interpolation = interp
+            p = Pattern("p", multipliers=mults, time_options=to, wrap=wrap)
+            r = rng.random()
+            t = rng.randint(0, 40 * step) if r < 0.6 else rng.randint(0, 40) * step if r < 0.9 else -rng.randint(1, 5 * step)
+            try:
+                impl = float(p.at(t))
+            except Exception as e:
+                fails.append(Failure("Pattern.at-exception", "Pattern.at raised %s: %s" % (type(e).__name__, e), {"mults": mults, "step": step, "t": t}))
+                continue
+            line = "pat %d %d %d %d %s" % (step, interp, wrap, t, ",".join(fs(m) for m in mults) or "-")
+
+            def cb(o, impl=impl, mults=mults, step=step, wrap=wrap, interp=interp, t=t):
+                ctx.case(("pat", len(mults), step, wrap, interp, t), len(mults) >= 2)
+                ctx.count("pattern_at_%s%s" % ("wrap" if wrap else "nowrap", "_interp" if interp else ""))
+                if not close(impl, parse_rat(o), scale=max([1.0] + [abs(m) for m in mults]) * (abs(t) / step + 2)):
+                    self._broken.append(Broken("correspondence", "Pattern.at vs Model/Pattern.lean",
+                                               "mults=%r step=%d wrap=%s interp=%s t=%d impl=%r model=%s" % (mults, step, wrap, interp, t, impl, o)))
+
+            reqs.add(line, cb)
+
+    # ------------------------------------------------------------------ correspondence + oracle
+    def correspondence(self, ctx):
+        import json
+
+        vlib.import_wntr()
+        fails = []
+        self._broken = []
+        reqs = Reqs()
+        for fn, item in vlib.corpus_items("C20"):
+            self.run_spec(ctx, item["spec"], reqs, fails, with_sim=True, label="corpus:" + fn)
+            ctx.count("corpus_items")
+        self.pattern_probes(ctx, reqs, fails)
+        n = 40 if ctx.quick else 400
+        nsim = 0
+        for i in range(n):
+            spec = gen_spec(ctx.rng, i)
+            with_sim = nsim < (25 if ctx.quick else 150)
+            before = ctx.hist.get("sim_runs", 0)
+            self.run_spec(ctx, spec, reqs, fails, with_sim=with_sim)
+            nsim += ctx.hist.get("sim_runs", 0) - before
+            if i < 3:
+                ctx.sample({"network": {k: spec[k] for k in ("time", "dm", "patterns")}, "junction0": spec["junctions"][0]})
+        reqs.run()
+        ctx.cov["driver_requests"] = len(reqs.lines)
+        # smallest failing network first for each key
+        fails.sort(key=lambda f: len(json.dumps(f.replay.get("spec", {}))))
+        return fails, self._broken
+
+    def search(self, ctx, broken):
+        """a proof / translator / correspondence broke and the seeded run found nothing: widen the generator"""
+        fails = []
+        self._broken = []
+        reqs = Reqs()
+        rng_state = ctx.rng.getstate()
+        for i in range(150 if ctx.quick else 600):
+            self.run_spec(ctx, gen_spec(ctx.rng, 10000 + i, small=(i % 2 == 0)), reqs, fails, with_sim=(i % 4 == 0))
+        reqs.run()
+        return fails
+
+    def replay(self, ctx, path):
+        import json
+
+        r = json.load(open(path if os.path.isabs(path) else os.path.join(vlib.VERIF, path)))
+        spec = (r.get("replay") or {}).get("spec")
+        print(json.dumps({k: v for k, v in r.items() if k != "broken"}, indent=1)[:2500])
+        if spec is None:
+            print("replay: no concrete input recorded (broken tie only)")
+            return 0
+        fails = []
+        self._broken = []
+        reqs = Reqs()
+        self.run_spec(ctx, spec, reqs, fails, with_sim=True, label="replay")
+        reqs.run()
+        hit = [f for f in fails if f.key == r.get("key")]
+        print("replay: %s" % ("REPRODUCED " + hit[0].what if hit else "not reproduced on the current tree"))
+        return 1 if hit else 0
+
+
 if __name__ == "__main__":
-    print(gen_tables_lean(read_tables()))
+    if len(sys.argv) > 1 and sys.argv[1] == "--tables":
+        print(gen_tables_lean(read_tables()))
+    else:
+        vlib.run_check(C20)
